@@ -633,6 +633,12 @@ def static_keys(r, triples):
         return acc
     pnames = {p["name"] for p in r["proj"]["params"]}
     free = {pre + n["n"] for n in r["proj"]["nodes"] if n["k"] == "symbol" and n["n"] not in pnames for pre in ("", "symbol_")}
+    # names the two constant contexts (main / alternative) both gave to an expression, and whether the text uses one
+    shared_refs = set(r["proj"].get("shared_refs", ()))
+    shared_used = any(q["o"] == "var" and q["s"] in shared_refs for q in rows)
+
+    def alt_var(w):      # a variable of the alternative context: declared with the constant type, not as an XlaOp
+        return any(st["op"] == "assign" and st["var"] == w and st["ty"] not in ("", "XlaOp", "xla::XlaOp") for st in r["prog"]["stmts"])
     out = {}
     failing = {t[1] for t in triples}
     tainted = {t[1] for t in triples if t[0] == "distinct_share"}
@@ -659,7 +665,7 @@ def static_keys(r, triples):
         elif clause == "distinct_share":
             w = str(what)
             detail = "variable " + ("constant_<value>" if w.startswith("constant_") else
-                                    "named in both constant contexts" if w in r["proj"].get("shared_refs", ()) else "other")
+                                    "named in both constant contexts" if (w in shared_refs or (shared_used and alt_var(w))) else "other")
         elif clause == "def_before_use":
             detail = what if what in NAMED_WORDS else ("argument renamed in the body only" if what in r.get("renamed_args", ()) else
                                                        "constant without an operand (free symbol)" if (what in free or (free and row in likes)) else
